@@ -202,23 +202,38 @@ def arrange_nonterminal(nt, name, shape="abs", first=True):
         val.extra["geo_hyp"] = [node_inv(a)]
         return val
     if shape[0] == "conc":
-        inst, kids = model.make_instance(shape[1], name, layout="sym", child_classes=TYPING["expression"])
-        if not first:
+        nops = shape[2] if len(shape) > 2 else 2
+        inst, kids = model.make_instance(shape[1], name, layout="sym", child_classes=TYPING["expression"], nops=nops)
+        if issubclass(shape[1], T.BaseOperation):
+            inst.head = ""           # Inv: an operation on the value stack has empty head and tail
+            inst.tail = ""
+            if not first and kids and isinstance(kids[0], model.AbsNode):
+                kids[0].head = ""
+        elif not first:
             inst.head = ""
         else:
             c.assume_late(z3.InRe(inst.head.t, WS_STAR))
-        c.assume_late(z3.InRe(inst.tail.t, WS_STAR))
+        if isinstance(inst.tail, SymStr):
+            c.assume_late(z3.InRe(inst.tail.t, WS_STAR))
         for k_ in kids:
             if isinstance(k_, model.AbsNode):
-                c.assume_late(z3.InRe(k_.head.t, WS_STAR))
+                if isinstance(k_.head, SymStr):
+                    c.assume_late(z3.InRe(k_.head.t, WS_STAR))
                 c.assume_late(z3.InRe(k_.tail.t, WS_STAR))
-                c.assume(z3.Implies(model.is_class(k_.fp, OPS), z3.And(k_.head.t == "", k_.tail.t == "")))
+                c.assume(z3.Implies(model.is_class(k_.fp, OPS), z3.And(S(k_.head) == "", k_.tail.t == "")))
         val = Val(nt, name, inst)
         val.children = kids
         hyp = [node_inv(k_) for k_ in kids if isinstance(k_, model.AbsNode)]
         hyp.append(I(inst.size) == z3.Length(S(model.body(inst))))
         prev = I(inst.pos)
         for k_ in kids:
+            if isinstance(k_, model.Run):
+                k_.__dict__["start"] = SymInt(name=name + "_run_start")
+                k_.__dict__["end"] = SymInt(name=name + "_run_end")
+                hyp.append(prev <= k_.start.t)
+                hyp.append(k_.start.t <= k_.end.t)
+                prev = k_.end.t
+                continue
             hyp.append(prev <= I(k_.pos) - z3.Length(S(k_.head)))
             prev = I(k_.pos) + I(k_.size) + z3.Length(k_.tail.t)
         hyp.append(prev <= I(inst.pos) + I(inst.size))
@@ -281,6 +296,32 @@ def shapes_for(lhs, rhs, func, reachable_only=False):
     return [{i: "abs" for i in nts}]
 
 
+def unfolded_shapes(rhs, shape):
+    """fallback family of a shape: every abstract non-terminal unfolded one level, per class of its typing set
+    (operations with 2 operands and with 2 + a run)"""
+    import itertools
+    per = []
+    keys = []
+    for i, s_ in enumerate(rhs):
+        if s_ in P.tokens:
+            continue
+        sh = shape.get(i, "abs")
+        if sh == "abs" or sh[0] == "abs-not":
+            names = [k for k in TYPING[s_] if sh == "abs" or k != sh[1].__name__]
+            opts = []
+            for k in names:
+                cls = model.CLASS_BY_NAME[k]
+                if issubclass(cls, T.BaseOperation):
+                    opts += [("conc", cls, 2), ("conc", cls, 3)]
+                else:
+                    opts.append(("conc", cls))
+            per.append(opts)
+        else:
+            per.append([sh])
+        keys.append(i)
+    return [dict(zip(keys, combo)) for combo in itertools.product(*per)]
+
+
 def shape_label(sh):
     def one(s):
         if s == "abs":
@@ -288,7 +329,7 @@ def shape_label(sh):
         if s[0] == "abs-not":
             return "other"
         if s[0] == "conc":
-            return s[1].__name__
+            return s[1].__name__ + ("" if len(s) < 3 else str(s[2]))
         return "%s%d" % (s[1].__name__[:3].lower(), s[2])
     return ",".join(one(sh[k]) for k in sorted(sh)) or "-"
 
@@ -307,7 +348,6 @@ def children_of(node):
 def run_production(cx, prod, shape, want):
     """arrange, call the real p_* function, return obligations.  `want` = set of property ids."""
     idx, lhs, rhs, func, fn = prod
-    ext.NUMERAL_ORIGINAL_SPELLING[0] = True   # C01/C02 are stated modulo numeral re-spelling (C01-N bounded)
     vals = []
     for i, s in enumerate(rhs):
         name = "p%d" % (i + 1)
@@ -348,7 +388,7 @@ def run_production(cx, prod, shape, want):
         obls.append(("C04-X/%s/returns-item" % key, isinstance(res, T.Item)))
     if "C01" in want:
         after = model.text(res)
-        obls.append(("C01-G/%s/text" % key, S(after) == S(before)))
+        obls.append(("C01-G/%s/text" % key, ext.despell(S(after)) == S(before)))
         # Inv': the leading head of the result is the leading head of p[1]
         obls.append(("C01-G/%s/inv-head" % key,
                      z3.Implies(S(h_before) == "", S(lead_head(res)) == "")))
@@ -377,7 +417,7 @@ def run_production(cx, prod, shape, want):
             en = I(res.pos) + I(res.size) + z3.Length(S(res.tail))
             obls.append(("C02-G/%s/start" % key, z3.Implies(H, st == vals[0].start())))
             obls.append(("C02-G/%s/end" % key, z3.Implies(H, en == vals[-1].end())))
-            obls.append(("C02-G/%s/size" % key, z3.Implies(H, I(res.size) == z3.Length(S(model.body(res))))))
+            obls.append(("C02-G/%s/size" % key, z3.Implies(H, I(res.size) == z3.Length(ext.despell(S(model.body(res)))))))
             if not isinstance(res, model.AbsNode):
                 spans = children_of(res)
                 conj = []
@@ -475,8 +515,9 @@ def _term(s, default="w"):
     return default
 
 
-def render_query(info, model, spaced=False):
-    """query string whose parse uses the production with the model's layouts"""
+def render_query(info, model, spaced=False, prefer=None):
+    """query string whose parse uses the production with the model's layouts.  prefer: class name to use for
+    abstract operands (instead of the model's class)"""
     model = model or {}
     idx, lhs, rhs, func = info["production"]
     shape = info["shape"].split(",") if info["shape"] != "-" else []
@@ -501,21 +542,28 @@ def render_query(info, model, spaced=False):
             sh = shape[nt_i] if nt_i < len(shape) else "abs"
             nt_i += 1
             if sh in ("abs", "other"):
-                fp = str(model.get(name + "_fp") or "FP_Word")
-                cls = fp[3:].split("(")[0]
+                fp = model.get(name + "_fp")
+                cls = fp.get("cls") if isinstance(fp, dict) else "Word"
+                if prefer and prefer in TYPING.get(kind, []) and (sh == "abs" or prefer != {"p_expression_or": "OrOperation", "p_expression_and": "AndOperation", "p_expression_implicit": "UnknownOperation"}.get(func)):
+                    cls = prefer
                 if cls not in _WITNESS or cls not in TYPING.get(kind, [cls]):
                     cls = "Word"
                 if kind != "expression" and cls in OPS:
                     cls = "Word"
                 piece = head + _WITNESS[cls] + tail
-            elif sh in ("Group",):
+            elif sh in ("Group", "FieldGroup"):
                 eh = _ws(model.get(name + "_expr_head"))
                 et = _ws(model.get(name + "_expr_tail"))
                 piece = head + "(" + eh + "w" + et + ")" + tail
+            elif sh in _WITNESS:
+                piece = head + _WITNESS[sh] + tail
             else:
                 # operation operand: x0 OP x1 [OP x2]
-                op = {"oro": "OR", "and": "AND", "unk": ""}[sh[:3]]
-                n = int(sh[3])
+                if sh[:-1] in _WITNESS:
+                    op = {"OrOperation": "OR", "AndOperation": "AND"}.get(sh[:-1], "")
+                else:
+                    op = {"oro": "OR", "and": "AND", "unk": ""}[sh[:3]]
+                n = int(sh[-1])
                 parts = []
                 for j in range(n):
                     nm = "%s_x%d" % (name, j) if j < 2 else None
@@ -550,11 +598,12 @@ def replay_requests(kind):
         if not info or "production" not in info:
             return []
         qs = []
-        for spaced in (False, True):
-            q = render_query(info, rec.get("model"), spaced)
-            if q not in qs:
-                qs.append(q)
-        return [{"kind": kind, "query": q} for q in qs]
+        for prefer in (None, "AndOperation", "OrOperation", "UnknownOperation", "Group", "Boost", "Word"):
+            for spaced in (False, True):
+                q = render_query(info, rec.get("model"), spaced, prefer)
+                if q not in qs:
+                    qs.append(q)
+        return [{"kind": kind, "query": q} for q in qs[:14]]
     return build
 
 
